@@ -38,7 +38,7 @@ func (t *Term) osc(payload string) {
 			if t.Caps.OSC4 {
 				idx, _ := strconv.Atoi(parts[0])
 				r, g, b := Palette(idx)
-				t.send("osc4", fmt.Sprintf("\x1b]4;%d;rgb:%02x%02x/%02x%02x/%02x%02x\x1b\\", idx, r, r, g, g, b, b))
+				t.send("osc4", fmt.Sprintf("\x1b]4;%d;%s\x1b\\", idx, t.colorSpec(int(r), int(g), int(b))))
 			}
 		} else {
 			t.unknown("OSC 4 set")
@@ -47,10 +47,10 @@ func (t *Term) osc(payload string) {
 		if rest == "?" {
 			t.log(map[bool]string{true: "query", false: "gated:osc" + num}[t.phase == 0], "OSC %s query", num)
 			ok := t.Caps.OSC10
-			col := "rgb:d0d0/d0d0/d0d0"
+			col := t.colorSpec(0xd0, 0xd0, 0xd0)
 			if num == "11" {
 				ok = t.Caps.OSC11
-				col = "rgb:1010/2020/3030"
+				col = t.colorSpec(0x10, 0x20, 0x30)
 			}
 			if ok {
 				t.send("osc"+num, "\x1b]"+num+";"+col+"\x1b\\")
@@ -190,4 +190,12 @@ func Palette(i int) (r, g, b uint8) {
 		v := uint8(8 + 10*(i-232))
 		return v, v, v
 	}
+}
+
+// colorSpec formats a colour the way this terminal reports colours.
+func (t *Term) colorSpec(r, g, b int) string {
+	if t.Caps.ColorDigits == 2 {
+		return fmt.Sprintf("rgb:%02x/%02x/%02x", r, g, b)
+	}
+	return fmt.Sprintf("rgb:%02x%02x/%02x%02x/%02x%02x", r, r, g, g, b, b)
 }
